@@ -2,6 +2,7 @@ import NixModel.Pure.DataView
 import NixModel.Lemmas.C06Slice
 import NixModel.Lemmas.C06View
 import NixModel.Lemmas.C06Array
+import NixModel.Lemmas.C06Gen
 
 /-!
 # C06 — index expressions on arrays and views mean what they mean in NumPy
@@ -220,6 +221,111 @@ theorem C06_array (shape : List Nat) (ix : List Ix) (hp : PosSteps ix) :
       · by_cases h' : countEllipsis ix > 1 <;> simp [h, h']
     rw [hnp]
     exact ⟨by simp [daRead, he, hc], e, by simp [daWrite, he]⟩
+
+
+/-! ## The model is the source
+
+`Generated/ViewShape.lean` is compiled from the Python AST of `nixio/data_view.py` and
+`nixio/data_array.py` on every run (`harness/extract/viewshape.py`): every test, arithmetic
+expression and `raise` of the functions below becomes a Lean term.  The theorems state that
+this generated code — put together by the control-flow interpreters of `Pure/ViewGen.lean` — is
+the hand-written model all theorems above are about, for **all** inputs.  An edit of the source
+(a comparison, a sign, `if sl:` for `if sl is not None:`, a reordered or dropped test, another
+exception class, another callee) changes a generated definition and breaks the named theorem. -/
+
+open Nix.ViewGen Nix.Generated.ViewShape
+
+/-- `DataView.__init__` as written in the source = `mkView` -/
+theorem C06_source_init (shape : List Nat) (slices : Option (List (Option Win))) :
+    mkViewG initSteps initNorm shape slices = mkView shape slices :=
+  mkViewG_eq shape slices
+
+/-- `DataView._expand_user_slices` as written in the source = `expandUser` = NumPy's expansion -/
+theorem C06_source_expand (ix : List Ix) (rank : Nat) :
+    expandUserSlices ix (rank : Int) = expandUser rank ix ∧
+      expandUserSlices ix (rank : Int) = expandIx rank ix :=
+  ⟨expand_eq ix rank, (expand_eq ix rank).trans (expandUser_eq rank ix)⟩
+
+/-- `DataView._transform_coordinates` as written in the source (integer branch, slice branch with
+the local `transform_slice`, the `else`, the statements around the loop) = `transform` -/
+theorem C06_source_transform (v : View) (ix : List Ix) :
+    transformG expandUserSlices (transformAxisG transformInt transformSlice transformOther) v ix =
+      transform v ix ∧
+    (∀ dv i, transformAxisG transformInt transformSlice transformOther dv i = transformAxis dv i) ∧
+    transformFrame = ["dvslices = self._slices",
+      "user_slices = self._expand_user_slices(user_slices)", "tslices = list()",
+      "for uslice, dvslice in zip(user_slices, dvslices)", "tslices.append(tslice)",
+      "return tuple(tslices)"] :=
+  ⟨transform_eq v ix, transformAxis_eq, by decide⟩
+
+/-- `DataView._read_data` / `_write_data` as written in the source (what an invalid view does,
+the test on `sl`, the callees) = `viewRead` / `viewWrite`; the argument is the object handed to
+`__getitem__`, a bare component or a tuple -/
+theorem C06_source_read_write (v : View) (sl : Option IxArg) :
+    viewReadG readInvalid readTest
+      (transformG expandUserSlices (transformAxisG transformInt transformSlice transformOther)) v sl =
+      viewRead v (sl.map IxArg.toList) ∧
+    viewWriteG writeInvalid writeTest
+      (transformG expandUserSlices (transformAxisG transformInt transformSlice transformOther)) v sl =
+      viewWrite v (sl.map IxArg.toList) ∧
+    readCallee = "self.array._read_data" ∧ writeCallee = "super(DataView, self)._write_data" :=
+  ⟨viewRead_eq v sl, viewWrite_eq v sl, by decide, by decide⟩
+
+/-- the single-value rule of `DataArray._read_data` as written in the source = `resultShape` -/
+theorem C06_source_single (sel : List AxisSel) :
+    resultShapeG singleTest singleShape (selShape sel) = resultShape sel ∧
+    singleSource = "np.array(super(DataArray, self)._read_data(sl))" :=
+  ⟨resultShape_eq sel, by decide⟩
+
+/-- `DataArray.get_slice` (guards, index-mode window, dispatch) as written in the source = `getSlice` -/
+theorem C06_source_get_slice (shape : List Nat) (positions : List Int) (extents : Option (List Int)) :
+    getSliceG getSliceGuard1 getSliceErr1 getSliceGuard2 getSliceErr2 getSliceWindow
+      (mkViewG initSteps initNorm) shape positions extents = getSlice shape positions extents ∧
+    getSliceOtherModes = ["elif mode == DataSliceMode.Data: return self._get_slice_bydim(positions, extents)",
+      "else: raise ValueError"] :=
+  ⟨getSlice_eq shape positions extents, by decide⟩
+
+/-- **End to end over the generated code.** For a view built by the generated `__init__` from
+windows inside the array, the generated `_read_data` applied to any index object of the
+property's kind returns NumPy's selection on the window, shifted by the window starts, with the
+generated single-value rule giving NumPy's shape (`[1]` for a rank-0 result); it is refused
+(`OutOfBounds` / `IndexError`) exactly when NumPy refuses. -/
+theorem C06_generated_view_read (shape : List Nat) (ws : List Win) (hw : WindowsIn ws shape)
+    (arg : IxArg) (hp : PosSteps arg.toList) :
+    let v := mkViewG initSteps initNorm shape (some (ws.map some))
+    let rd := viewReadG readInvalid readTest
+      (transformG expandUserSlices (transformAxisG transformInt transformSlice transformOther)) v (some arg)
+    v = ⟨shape, true, ws⟩ ∧
+    match npSelect (extentsOf ws) arg.toList with
+    | .ok sel =>
+      rd = .ok (.sel (shiftSel (offsetsOf ws) sel)) ∧
+      resultShapeG singleTest singleShape (selShape (shiftSel (offsetsOf ws) sel)) =
+        (match selShape sel with | [] => [1] | s => s)
+    | .error _ => rd = .error .outOfBounds ∨ rd = .error .indexError := by
+  intro v rd
+  have hv : v = ⟨shape, true, ws⟩ := by
+    show mkViewG initSteps initNorm shape (some (ws.map some)) = _
+    rw [mkViewG_eq]; exact mkView_ok shape ws hw
+  have hok : ViewOK (⟨shape, true, ws⟩ : View) := ⟨rfl, hw⟩
+  have hrd : rd = viewRead ⟨shape, true, ws⟩ (some arg.toList) := by
+    show viewReadG _ _ _ v (some arg) = _
+    rw [viewRead_eq, hv]; rfl
+  refine ⟨hv, ?_⟩
+  have key := C06_view_read ⟨shape, true, ws⟩ hok arg.toList hp
+  have he : (⟨shape, true, ws⟩ : View).extents = extentsOf ws := rfl
+  have ho : (⟨shape, true, ws⟩ : View).offsets = offsetsOf ws := rfl
+  rw [he, ho] at key
+  split
+  · rename_i sel hsel
+    rw [hsel] at key
+    obtain ⟨k1, _, k3⟩ := key
+    refine ⟨by rw [hrd]; exact k1, ?_⟩
+    rw [resultShape_eq]
+    exact k3
+  · rename_i e hsel
+    rw [hsel] at key
+    rw [hrd]
+    exact key
 
 /-! Non-vacuity: concrete views and tuples meeting the hypotheses, evaluated by the kernel. -/
 
